@@ -28,10 +28,10 @@
                  O = no panic, "succeeds in one configuration ⇒ succeeds in all", and every configuration gives the same
                      answer up to the freedom `Spec.sameAnswer` leaves.  No executable reference (tables are ≥1000 rows; the
                      naive reference semantics is quadratic) — K = O.
-                 Attribution to C07-F1 (partition-0-only callers): signature = the plan routes a subplan through
-                 CTE materialisation / a subquery expression; neutraliser = every configuration in which all scans are
-                 single-partition (one batch per table, or one rayon thread) succeeds and agrees with the reference
-                 configuration, and no configuration errors or panics — so only multi-partition runs deviate.
+                 Attribution: only to C07-F2 (= C21-F8, NULL group key merged into the group of key -1): signature = the plan
+                 groups by a key and some integer column holds both NULL and -1; neutraliser = the harness re-runs every
+                 configuration with the NULLs of integer columns replaced by a fresh value, and then all of them agree.
+                 C07-F1 (partition-0-only callers) is fixed (b96001d) and suppresses nothing; its shape is only tagged.
 -/
 import Driver.Util
 import Driver.Sql
@@ -259,6 +259,28 @@ partial def usesSubplan : Query → Bool
   | .withCte _ _ => true
 end
 
+/-- the plan groups rows by a key somewhere (GROUP BY / DISTINCT / GROUPING SETS / a de-duplicating set operation) -/
+partial def hasGrouping : Query → Bool
+  | .scan _ | .cteRef _ | .values _ => false
+  | .filter subs _ q | .project subs _ q => subs.any hasGrouping || hasGrouping q
+  | .join _ _ _ subs _ l r => subs.any hasGrouping || hasGrouping l || hasGrouping r
+  | .agg keys _ q => !keys.isEmpty || hasGrouping q
+  | .groupingSets _ _ _ _ => true
+  | .distinct _ => true
+  | .sort _ q | .limit _ _ q | .window _ q => hasGrouping q
+  | .setop _ all l r => !all || hasGrouping l || hasGrouping r
+  | .withCte defs body => defs.any hasGrouping || hasGrouping body
+
+/-- the plan holds an aggregate without GROUP BY that computes MIN or MAX -/
+partial def hasGlobalMinMax : Query → Bool
+  | .scan _ | .cteRef _ | .values _ => false
+  | .filter subs _ q | .project subs _ q => subs.any hasGlobalMinMax || hasGlobalMinMax q
+  | .join _ _ _ subs _ l r => subs.any hasGlobalMinMax || hasGlobalMinMax l || hasGlobalMinMax r
+  | .agg keys aggs q => (keys.isEmpty && aggs.any fun a => a.fn == .min || a.fn == .max) || hasGlobalMinMax q
+  | .groupingSets _ _ _ q | .distinct q | .sort _ q | .limit _ _ q | .window _ q => hasGlobalMinMax q
+  | .setop _ _ l r => hasGlobalMinMax l || hasGlobalMinMax r
+  | .withCte defs body => defs.any hasGlobalMinMax || hasGlobalMinMax body
+
 /-- all scans are single-partition in this configuration: one batch per table, or one rayon thread -/
 def singlePartitionCfg (name : String) : Bool := name.startsWith "mem1@" || (name.splitOn "@t1w").length > 1
 
@@ -303,11 +325,33 @@ def handleSql (c i : Json) : Except String Driver.Verdict := do
         some s!"configurations {k0} and {k} disagree ({differing.length} of {oks.length} differ from the reference): {Driver.SQL.diffSummary t t0}"
       | _, _ => none
   let sig := usesSubplan cs.plan
-  let attr : Option String :=
-    if ofail.isSome && sig && panics.isEmpty && errs.isEmpty && !differing.isEmpty
-        && differing.all (fun k => !singlePartitionCfg k)
-        && (oks.any fun (k, _) => singlePartitionCfg k) then some "C07-F1" else none
+  let clean := ofail.isSome && panics.isEmpty && errs.isEmpty && !differing.isEmpty
+  -- C07-F1: only multi-partition configurations deviate and the plan routes a subplan through a partition-0-only caller
+  let f1 := clean && sig && differing.all (fun k => !singlePartitionCfg k) && (oks.any fun (k, _) => singlePartitionCfg k)
+  -- C07-F3 (= C21-F9): the answers split exactly along "every table is ONE batch" vs "some table has several batches",
+  -- each class agrees internally, and the plan holds a global MIN/MAX
+  let isMem1 (k : String) : Bool := k.startsWith "mem1@"
+  let classAgrees (cls : List (String × Table)) : Bool := match cls with
+    | [] => true
+    | (_, t0) :: rest => rest.all fun (_, t) => same t0 t
+  let f3 := clean && hasGlobalMinMax cs.plan && differing.all (fun k => !isMem1 k)
+            && (oks.filter fun (k, _) => !isMem1 k).all (fun (k, _) => differing.contains k)
+            && classAgrees (oks.filter fun (k, _) => isMem1 k) && classAgrees (oks.filter fun (k, _) => !isMem1 k)
+  -- C07-F2 (= C21-F8): the plan groups by a key, some integer column holds NULL and -1 (the harness then adds the
+  -- neutralised runs), and with the NULLs of integer columns replaced by a fresh value every configuration agrees
+  let neutralOk : Bool := match i.getObjVal? "neutral" with
+    | .ok nj => match nj.getObjVal? "no_int_null" with
+      | .ok (.obj kv) =>
+        let ns := kv.toList.filterMap fun (_, v) => match Driver.SQL.outcomeOfJson v with | .ok (.ok t) => some t | _ => none
+        ns.length == kv.toList.length && (match ns with | [] => false | t0 :: rest => rest.all fun t => same t0 t)
+      | _ => false
+    | .error _ => false
+  let f2 := clean && hasGrouping cs.plan && neutralOk
+  -- C07-F1 (fixed by b96001d) and the scalar MIN/MAX sentinel (C21-F9, fixed by 988d68a) suppress nothing any more: a case
+  -- with their signature is a new VIOLATION.  `f1` / `f3` only label it.
+  let attr : Option String := if f2 then some "C07-F2" else none
   let diffTags := (differing.map fun k => s!"diff:{layoutOf k}").eraseDups
+                  ++ (if f1 then ["looks_like:C07-F1"] else []) ++ (if f3 then ["looks_like:C21-F9"] else [])
   let nonEmpty := oks.any fun (_, t) => !t.isEmpty
   let tags := ["sql", if multiScan then "sql:multi" else "sql:single", if declMax ≥ 2 then "sql:root_multi" else "sql:root_single", if sig then "sql:subplan" else "sql:plain",
                Driver.SQL.topShape cs.plan, if errs.isEmpty then "sql:answered" else "sql:err"]
